@@ -280,6 +280,11 @@ func Run(c *common.Ctx) error {
 			scens = append(scens, scen{Cycles: 1 + r.Intn(3), PageSizes: pss, WAL: r.Bool(), LagReplica: r.Bool(), LateJoin: r.Bool(), RestartP: r.Chance(30)})
 		}
 	}
+	for _, ps := range [][2]int{{4096, 1024}, {512, 4096}, {1024, 1024}} {
+		if err := snapshotAcrossDrop(c, c.Rng.Fork(), ps[0], ps[1]); err != nil {
+			return err
+		}
+	}
 	for _, wal := range []bool{false, true} {
 		if err := dropCrashPoints(c, c.Rng.Fork(), wal); err != nil {
 			return err
@@ -291,5 +296,79 @@ func Run(c *common.Ctx) error {
 		}
 	}
 	c.Sample(map[string]any{"scenario": scens[1]})
+	return nil
+}
+
+// snapshotAcrossDrop: a replica is away while the primary drops the database and recreates it with another page size,
+// and retention removes the tombstone's file before the replica is back: it is sent a snapshot that crosses the drop, onto
+// the database it still has. It must end up with the recreated database like everybody else.
+func snapshotAcrossDrop(c *common.Ctx, r *common.Rand, ps1, ps2 int) error {
+	dir, err := os.MkdirTemp(c.OutDir, "c15s-")
+	if err != nil {
+		return err
+	}
+	defer os.RemoveAll(dir)
+	rep := map[string]any{"kind": "snapshot-across-drop", "page_sizes": []int{ps1, ps2}}
+	clu := cluster.New(dir, 2*time.Second)
+	defer clu.Close()
+	p, err := clu.Start("p", true)
+	if err != nil {
+		return err
+	}
+	if clu.WaitPrimary(5*time.Second) == nil {
+		return fmt.Errorf("no primary")
+	}
+	r2, err := clu.Start("r2", false)
+	if err != nil {
+		return err
+	}
+	h := hist.NewOn(c, r.Fork(), hist.Config{PageSize: ps1}, p.Store, p.Exits, "db", &lfs.Image{PageSize: ps1}, 0, false)
+	if !commitN(h, 2) {
+		return fmt.Errorf("first life: commits failed")
+	}
+	at := dbPos(p.Store)
+	if !cluster.WaitPos(r2, "db", at.TXID, at.Chk, 10*time.Second) {
+		return fmt.Errorf("replica did not catch up")
+	}
+	r2.Stop()
+	hd := hist.NewOn(c, r.Fork(), hist.Config{PageSize: ps1}, p.Store, p.Exits, "db", h.Ref, at.TXID, false)
+	if ob := hd.Exec(hist.Step{Op: "drop"}); ob.Err != "" || ob.Panic != "" {
+		return fmt.Errorf("drop: %s %s", ob.Err, ob.Panic)
+	}
+	h2 := hist.NewOn(c, r.Fork(), hist.Config{PageSize: ps2}, p.Store, p.Exits, "db", &lfs.Image{PageSize: ps2}, at.TXID+1, false)
+	if !commitN(h2, 2) {
+		return fmt.Errorf("second life: commits failed")
+	}
+	// retention: everything but the newest file goes
+	p.Store.Retention = time.Nanosecond
+	time.Sleep(5 * time.Millisecond)
+	_ = p.Store.EnforceRetention(context.Background())
+	p.Store.Retention = 10 * time.Minute // (it is also the time a snapshot may take)
+	pp := dbPos(p.Store)
+	r2, err = clu.Start("r2", false)
+	c.Evaluations++
+	c.Distinct(fmt.Sprintf("snapshot-across-drop:%d:%d", ps1, ps2))
+	if err != nil {
+		c.Violate("C15:snapshot-across-drop:restart", fmt.Sprintf("the replica cannot restart: %v", err), rep)
+		return nil
+	}
+	if !cluster.WaitPos(r2, "db", pp.TXID, pp.Chk, 8*time.Second) {
+		c.Violate("C15:snapshot-across-drop:position", fmt.Sprintf("a replica that was away during a drop and a recreation with %d-byte pages (it holds the old %d-byte-page database; the tombstone's file is gone, so it is sent a snapshot) stays at %v while the primary is at (%d,%016x); exits=%v", ps2, ps1, dbPos(r2.Store), pp.TXID, pp.Chk, r2.Exits()), rep)
+		return nil
+	}
+	pimg, _ := lfs.ReadImage(filepath.Join(p.Dir, "dbs", "db"))
+	rimg, _ := lfs.ReadImage(filepath.Join(r2.Dir, "dbs", "db"))
+	if pimg != nil && rimg != nil {
+		if eq, why := rimg.Equal(pimg); !eq {
+			c.Violate("C15:snapshot-across-drop:image", "the replica reports the primary's position with another image: "+why, rep)
+		}
+	}
+	// and it restarts on what it has
+	r2.Stop()
+	if r2, err = clu.Start("r2", false); err != nil {
+		c.Violate("C15:snapshot-across-drop:restart-after", fmt.Sprintf("the replica cannot restart after the snapshot: %v", err), rep)
+	} else if got := dbPos(r2.Store); got.TXID != pp.TXID || got.Chk != pp.Chk {
+		c.Violate("C15:snapshot-across-drop:restart-position", fmt.Sprintf("after a restart the replica is at %v, want (%d,%016x)", got, pp.TXID, pp.Chk), rep)
+	}
 	return nil
 }
